@@ -44,7 +44,7 @@ FMT = dict(
 
 def plan(tier, seed):
 	nsh = 16 if tier == 'quick' else 64
-	return [('t_files', dict(tier=tier, shard=s, nshards=nsh)) for s in range(nsh)] + [('t_default_spec', dict()), ('t_histories', dict(depth=3 if tier == 'quick' else 4))] + [('t_big', dict(which=w)) for w in range(3)]
+	return [('t_files', dict(tier=tier, shard=s, nshards=nsh)) for s in range(nsh)] + [('t_default_spec', dict()), ('t_histories', dict(depth=3 if tier == 'quick' else 4))] + [('t_big', dict(which=w)) for w in range(3)] + [('t_tiny', dict())]
 
 
 def render(contigs, orient, fmt):
@@ -167,6 +167,49 @@ def t_files(tier, shard, nshards):
 						sh.count('variants_with_reverse_complemented_contig')
 					sh.outcome(exp)
 	sh.sample(dict(family='files', subset=list(subset), order=list(order), orient=list(orient), fmt=fmt, signature=exp))
+	return sh
+
+
+def t_tiny():
+	"""The smallest genome files: no record at all, a title without sequence, one or two letters of sequence - each with and without the final
+	newline, plain and gzip-compressed, LF and CRLF.  All are valid inputs whose signature is the union over their (possibly empty) contigs."""
+	import gzip
+	sh = Shard()
+	ks = fixtures.kspec(K, PREFIX)
+	bodies = [[], [('', '')], [('x', '')], [('x', 'A')], [('x', 'AT')], [('x', 'ATCGCA')], [('x', ''), ('y', 'ATCGCA')], [('x', 'ATCGCA'), ('y', '')], [('', 'ATCGCA')]]
+	with fixtures.workdir('c06t') as d:
+		for recs in bodies:
+			exp = sorted(set().union(*[set(R.ref_signature(K, PREFIX.encode(), [seq.encode()])) for _, seq in recs])) if recs else []
+			for eol in ('\n', '\r\n'):
+				lines = []
+				for title, seq in recs:
+					lines.append('>' + title)
+					if seq:
+						lines.append(seq)
+				for final in (True, False):
+					text = eol.join(lines) + (eol if final and lines else '')
+					for gz in (False, True):
+						for name in ('t.fasta', 't.fa.gz', 't'):
+							p = os.path.join(d, name)
+							data = text.encode('ascii')
+							with open(p, 'wb') as f:
+								f.write(gzip.compress(data, mtime=0) if gz else data)
+							os.utime(p, ns=(FIXED_NS, FIXED_NS))
+							sh.evals += 1
+							case = dict(subset='tiny', order=[], orient=[], fmt=dict(records=[list(r) for r in recs], eol=eol, final=final, gz=gz, name=name, bytes=len(data)), k=K, prefix=PREFIX)
+							try:
+								got = sig_of(p, ks)
+							except Exception as e:
+								sh.violation('parse-failed', case, exp, repr(e))
+								continue
+							if got.tolist() != exp or str(got.dtype) != R.ref_dtype(K):
+								sh.violation('not-union-of-contig-signatures', case, exp, got.tolist())
+								continue
+							sh.nontrivial += 1
+							if len(data) < 2:
+								sh.count('files_shorter_than_two_bytes')
+	sh.count('tiny_files', sh.evals)
+	sh.sample(dict(family='tiny', bodies=len(bodies)))
 	return sh
 
 
@@ -315,6 +358,8 @@ def replay(case, kind=None):
 		return [v for v in t_big(case['which']).violations if v['case']['fmt'] == case['fmt']][:1]
 	if case['subset'] == 'history':
 		return [v for v in t_histories(len(case['history']), only=case['history']).violations if v['case']['k'] == case['k']][:1]
+	if case['subset'] == 'tiny':
+		return [v for v in t_tiny().violations if v['case']['fmt'] == case['fmt']][:1]
 	if case['subset'] == 'default-spec':
 		return [v for v in t_default_spec().violations if v['case'] == case]
 	ks = fixtures.kspec(K, PREFIX)
